@@ -396,7 +396,7 @@ Proof.
     + exact J4.
     + now rewrite J4.
     + apply (NoDup_map_coarser tkey tkey0); [|now rewrite J5].
-      intros x y E. unfold tkey in E. unfold tkey0. cbn [app] in E. inversion E. reflexivity.
+      intros x y E. unfold tkey in E. unfold tkey0. inversion E. reflexivity.
     + exact Eb.
   - destruct (http_fronts_conv (cd_id c) (cd_fronts c)) as [fs|e] eqn:E1; [|discriminate].
     destruct (resolve_http d fs st) as [[fs' st1]|e] eqn:E2; [|discriminate].
@@ -522,7 +522,7 @@ Proof.
   - (* routes *) rewrite <- A2. exact A3.
   - (* tcp/udp frontends *)
     apply (NoDup_flat_map_owner cc_tfronts tkey t_cluster (fun cc => c_id (cc_clu cc))); [| exact Ids |].
-    + intros x y E. unfold tkey in E. cbn [app] in E. now inversion E.
+    + intros x y E. unfold tkey in E. now inversion E.
     + intros cc Hcc. rewrite Forall_forall in A4. split; [now apply A4|].
       intros t Ht. destruct (Forall2_in_right _ _ _ M cc Hcc) as [cd [_ Hm]].
       pose proof (cluster_matches_id _ _ Hm) as Eid.
